@@ -301,7 +301,7 @@ func explore(t *testing.T, e Engine, spec Spec, enc *json.Encoder, w *bufio.Writ
 		if spec.BudgetSec > 0 && time.Since(start).Seconds() >= spec.BudgetSec {
 			break
 		}
-		res := RunOne(t, e, simrt.NewTape(seed), false)
+		res := RunOne(t, e, simrt.NewTape(seed), os.Getenv("VERIF_DETAIL") != "")
 		sum.Runs++
 		sum.LastSeed = seed
 		sum.Steps += int64(res.Steps)
